@@ -4,6 +4,7 @@ usage: seed_confirm.py <PROP> <worktree> <mutation-dir-name> <seed-name> [check 
 Steps: clean worktree -> demo passes; apply patch -> build + full test suite pass, demo fails; revert.
 Then (optionally) apply the patch to /repo, run the given checks, and revert /repo."""
 import sys, os, re, subprocess, json, shutil, glob
+REPO = os.environ.get('VERIF_REPO', '/repo')
 ENV = dict(os.environ, GOFLAGS='-mod=mod', GOPROXY='off', GOSUMDB='off', GOTOOLCHAIN='local')
 
 def sh(cmd, cwd, timeout=900):
@@ -53,14 +54,14 @@ def main():
     shutil.copy(os.path.join(mdir, 'notes.md'), os.path.join(dest, 'notes.md'))
     detected = {}
     for cid in checks:
-        rc, out = sh('git -C /repo apply %s' % os.path.join(dest, 'patch.diff'), '/verif')
+        rc, out = sh(('git -C ' + REPO + ' apply %s') % os.path.join(dest, 'patch.diff'), '/verif')
         if rc != 0:
             detected[cid] = 'patch-does-not-apply-to-/repo'
             continue
         try:
             rc, out = sh('./check %s' % cid, '/verif', timeout=1800)
         finally:
-            sh('git -C /repo checkout -- .', '/verif')
+            sh('git -C ' + REPO + ' checkout -- .', '/verif')
         lines = [l for l in out.splitlines() if l.startswith('VIOLATION')]
         detected[cid] = {'exit': rc, 'violations': len(lines), 'first': lines[0] if lines else None,
                          'no_failing_input_found': bool(lines) and all('no-failing-input-found' in l for l in lines)}
